@@ -504,10 +504,10 @@ def harnessFns : String → Option (List (Fn × Shape))
   | "jsonld_graphs" | "jsonld_nodes" | "jsonld_chain" => flatFns [.jsonify]
   -- one subject with `n` objects: `n - 1` consecutive duplicates of (graph, subject)
   | "turtle_objects" => flatFns [.dedupNext, .prettyWriteCycle, .prettyWriteTerm, .findSubject]
-  | "turtle_list" | "turtle_lists" | "turtle_subjects" | "turtle_literal" | "trig_graphs" =>
+  | "turtle_list" | "turtle_list_i0" | "turtle_lists" | "turtle_subjects" | "turtle_literal" | "trig_graphs" =>
     flatFns [.prettyWriteCycle, .prettyWriteTerm, .findSubject]
   -- every blank node of the chain is the subject of ONE statement: nothing for DedupIterator to skip
-  | "turtle_chain" => some [(.prettyWriteCycle, .bnodeChain), (.prettyWriteTerm, .bnodeChain), (.findSubject, .flat)]
+  | "turtle_chain" | "turtle_chain_i0" | "trig_chain_tab" => some [(.prettyWriteCycle, .bnodeChain), (.prettyWriteTerm, .bnodeChain), (.findSubject, .flat)]
   -- rio parsers / formatters, json-ld, `insert`: no anchored function scales with the number of statements
   | "parse_nt" | "parse_nq" | "parse_turtle" | "parse_turtle_list" | "parse_turtle_objects" | "parse_trig"
   | "parse_rdfxml" | "parse_jsonld" | "parse_jsonld_list" | "rdfxml_ser" | "turtle_stream" | "trig_stream" =>
